@@ -35,7 +35,9 @@ RUpdate(R, st) ==
       cerHost == IF feed /\ \E j \in 1..Len(ms) : ms[j].cmd = "CE" /\ ms[j].req
                  THEN ms[CHOOSE j \in 1..Len(ms) : ms[j].cmd = "CE" /\ ms[j].req /\ \A k \in 1..(j - 1) : ~(ms[k].cmd = "CE" /\ ms[k].req)].oh ELSE ""
       R2 == [R1 EXCEPT !.cand = [c \in CIds |-> IF c = c0 /\ @[c] = "" /\ cerHost # "" THEN cerHost ELSE @[c]],
-                       !.gone = [c \in CIds |-> @[c] \/ IsClosed(st.snap, c) \/ (feed /\ c = c0 /\ \E j \in 1..Len(ms) : ms[j].cmd = "DP")
+                       \* (a DPR / DPA ends service only on a connection through its capabilities exchange: before that it is ignored)
+                       !.gone = [c \in CIds |-> @[c] \/ IsClosed(st.snap, c)
+                                               \/ (feed /\ c = c0 /\ \E j \in 1..Len(ms) : ms[j].cmd = "DP" /\ (R.rdy[c] \/ \E k \in 1..(j - 1) : ms[k].cmd = "CE"))
                                                \/ (st.act.a \in {"peer_close", "peer_reset"} /\ st.act.c = c)]]
   IN [R2 EXCEPT !.rdy = [c \in CIds |-> @[c] \/ (R1.dir[c] = "in" /\ succIn(c)) \/ succOut(c)],
                 !.peer = [c \in CIds |-> IF R1.dir[c] = "in" /\ succIn(c) /\ @[c] = "" THEN R2.cand[c] ELSE @[c]]]
